@@ -573,6 +573,34 @@ func genMetric(r *rand.Rand, mode string) metricIn {
 			return in
 		}
 		if r.Intn(7) == 0 {
+			// two sides that hold ONE series each, of different label sets: nothing joins (and the set operators see two series)
+			nm, v1, v2 := "", "", ""
+			for _, set := range sets {
+				for _, kv := range set {
+					for _, set2 := range sets {
+						for _, kv2 := range set2 {
+							if S(kv[0]) == S(kv2[0]) && S(kv[1]) != S(kv2[1]) && isPlainValue(S(kv[1])) && isPlainValue(S(kv2[1])) {
+								nm, v1, v2 = S(kv[0]), S(kv[1]), S(kv2[1])
+							}
+						}
+					}
+				}
+			}
+			if nm != "" {
+				eps, _ := json.Marshal(&ReAST{T: "eps"})
+				mk := func(id int, val string) *mexprIn {
+					rg := &mexprIn{T: "range", ID: id, Op: "count_over_time", Sel: []matcherIn{{Label: B(nm), Op: "eq", Val: B(val), Re: eps}}, Param: Ints{0, 1}, Grp: noGrp(), V: Ints{0, 1},
+						Unwrap: unwrapIn{Label: Ints{}}, Range: 100, Stages: []stageIn{{T: "drop", Labels: IntsList{B("msg"), B("v")}}}}
+					return &mexprIn{T: "vecagg", Op: "sum", Grp: grpIn{Mode: "by", Labels: IntsList{B(nm)}}, E: rg, Sel: []matcherIn{}, Stages: []stageIn{}, Param: Ints{0, 1}, V: Ints{0, 1}, Unwrap: unwrapIn{Label: Ints{}}}
+				}
+				in.Expr = mexprIn{T: "binop", Op: pick(r, []string{"div", "add", "sub", "mul", "gt", "or", "and", "unless"}), A: mk(1, v1), B: mk(2, v2),
+					Sel: []matcherIn{}, Stages: []stageIn{}, Param: Ints{0, 1}, V: Ints{0, 1}, Unwrap: unwrapIn{Label: Ints{}}, Grp: noGrp()}
+				in.Evals = []evalIn{{Start: mBase + 50, End: mBase + 50, Step: 0}, {Start: mBase + 40, End: mBase + 60, Step: 10}}
+				in.Reps = 2
+				return in
+			}
+		}
+		if r.Intn(7) == 0 {
 			// the series without labels is ONE series however it came about: no grouping clause, by (), by (a label nobody has),
 			// without (every label) - on the two sides of a binary operation they meet
 			mk := func(id int, g grpIn, op string) *mexprIn {
@@ -952,4 +980,14 @@ func genBinOpCase(r *rand.Rand) ([]MemRec, mexprIn, []evalIn) {
 		return recs, *e, []evalIn{{Start: mBase + 1, End: mBase + 49, Step: 6}, {Start: mBase + 13, End: mBase + 13, Step: 0}}
 	}
 	return recs, *e, wideEvals
+}
+
+// isPlainValue: a label value that can stand in a selector of a generated query as it is (printable ASCII, no quote or backslash).
+func isPlainValue(v string) bool {
+	for i := 0; i < len(v); i++ {
+		if v[i] < 0x20 || v[i] > 0x7e || v[i] == '"' || v[i] == '\\' {
+			return false
+		}
+	}
+	return true
 }
